@@ -53,7 +53,11 @@ void run_bb(const char *op)
         case 4: byte_buffer_clear(&b); out_s("void"); out_h(NULL, 0); break;
         case 5: byte_buffer_reset(&b); out_s("void"); out_h(NULL, 0); break;
         case 6: byte_buffer_repeat(&b); out_s("void"); out_h(NULL, 0); break;
-        case 7: rc = byte_buffer_set(&b, arena, (size_t)a, (size_t)x, (size_t)c); out_rc(rc); out_h(NULL, 0); break;
+        case 7: /* set-up through the entry point that fits the arguments: use (all filled), space (empty) or the general one */
+                if (x == a && c == 0 && (i & 1)) rc = byte_buffer_use(&b, arena, (size_t)a);
+                else if (x == 0 && c == 0 && (i & 1)) rc = byte_buffer_space(&b, arena, (size_t)a);
+                else rc = byte_buffer_set(&b, arena, (size_t)a, (size_t)x, (size_t)c);
+                out_rc(rc); out_h(NULL, 0); break;
         default: rc = byte_buffer_set(&b, NULL, (size_t)a, (size_t)x, (size_t)c); out_rc(rc); out_h(NULL, 0); break;
         }
         obs_state(&b, arena, an);
